@@ -1010,6 +1010,11 @@ pub fn next_user_event(rng: &mut Rng, p: &Profile, v: &View) -> Ev {
         }
         Fam::Sheet => {
             let n = v.nsheets();
+            // a single-sheet workbook gets a second sheet first: cross-sheet references,
+            // moves and cuts between sheets need one
+            if n == 1 && rng.chance(0.6) {
+                return if rng.chance(0.5) { Ev::NewSheet } else { Ev::DuplicateSheet { sheet: sh } };
+            }
             match rng.below(9) {
                 0 if n < 4 => Ev::NewSheet,
                 1 if n < 4 => Ev::DuplicateSheet { sheet: sh },
